@@ -305,6 +305,11 @@ func (p *parser) newForInStmt(inExpr *ast.Node, body *ast.BlockStmt, forTk Item)
 		return nil
 	}
 
+	if expr.LHS == nil || expr.RHS == nil {
+		// an operand failed to parse; its error is already recorded
+		return nil
+	}
+
 	switch expr.LHS.NodeType { //nolint:exhaustive
 	case ast.TypeIdentifier:
 	default:
@@ -374,6 +379,10 @@ func (p *parser) newIfElem(ifTk Item, condition *ast.Node, block *ast.BlockStmt)
 }
 
 func (p *parser) newUnaryExpr(op Item, r *ast.Node) *ast.Node {
+	if r == nil {
+		// the operand failed to parse; its error is already recorded
+		return nil
+	}
 	switch op.Typ {
 	case ADD, SUB:
 		// 负数
@@ -428,6 +437,10 @@ func (p *parser) newConditionalExpr(l, r *ast.Node, op Item) *ast.Node {
 }
 
 func (p *parser) newArithmeticExpr(l, r *ast.Node, op Item) *ast.Node {
+	if r == nil {
+		// the operand failed to parse; its error is already recorded
+		return nil
+	}
 	switch op.Typ {
 	case DIV, MOD: // div 0 or mod 0
 		switch r.NodeType { //nolint:exhaustive
